@@ -28,7 +28,37 @@ REQS = [
 ]
 
 
-def build_request(i, prec=None):
+N_VARIANTS = 10
+
+
+def build_request(i, prec=None, variant=0):
+    """request shape i; `variant` changes exactly ONE argument of the base request (0 = base): a solve must not depend on
+    what an earlier solve that shared all the OTHER arguments left behind"""
+    kw = _build_base(i, prec)
+    nz = REQS[i]["nz"]
+    if variant == 1:
+        kw["levels"] = [1, nz - 2]
+    elif variant == 2:
+        kw["levels"] = [2]
+    elif variant == 3:
+        kw["meas_pt"] = (60.0, 50.0)
+    elif variant == 4:
+        kw["srf_bg_conc"] = 1.7
+    elif variant == 5:
+        kw["srf_flx"] = np.random.default_rng(1000 + i).uniform(0, 2, kw["srf_flx"].shape)
+    elif variant == 6:
+        kw["modes"] = (6, 4)
+    elif variant == 7:
+        kw["halo"] = 40.0
+    elif variant == 8:
+        kw["domain"] = (200.0, 90.0)
+    elif variant == 9:
+        u, v, Kx, Ky, Kz = kw["profiles"]
+        kw["profiles"] = (1.3 * u, 0.7 * v, Kx, 1.5 * Ky, Kz)
+    return kw
+
+
+def _build_base(i, prec=None):
     r = REQS[i]
     rng = np.random.default_rng(r["seed"])
     nz = r["nz"]
@@ -65,12 +95,16 @@ for op in hist:
     if op[0] == "T":
         config.NUM_THREADS = op[1]
     elif op[0] == "S":
-        kw = C12.build_request(op[1], op[2] if len(op) > 2 else None)
-        grid, conc, flx = steady_state_transport_solver(**kw)
-        a = np.ascontiguousarray(np.asarray(conc)); b = np.ascontiguousarray(np.asarray(flx))
-        rec["sha"] = hashlib.sha256(a.tobytes() + b.tobytes() + str(a.dtype).encode()).hexdigest()
-        rec["conc"] = np.asarray(conc, dtype=float).ravel().tolist()
-        rec["flx"] = np.asarray(flx, dtype=float).ravel().tolist()
+        kw = C12.build_request(op[1], op[2] if len(op) > 2 else None, op[3] if len(op) > 3 else 0)
+        try:
+            grid, conc, flx = steady_state_transport_solver(**kw)
+            a = np.ascontiguousarray(np.asarray(conc)); b = np.ascontiguousarray(np.asarray(flx))
+            rec["sha"] = hashlib.sha256(a.tobytes() + b.tobytes() + str(a.dtype).encode()).hexdigest()
+            rec["conc"] = np.asarray(conc, dtype=float).ravel().tolist()
+            rec["flx"] = np.asarray(flx, dtype=float).ravel().tolist()
+        except Exception as e:
+            rec["error"] = type(e).__name__ + ": " + str(e)[:200]
+            rec["sha"] = "error"
     elif op[0] == "F":
         fft_manager.fft2(np.ones((4, 4)))
     elif op[0] == "Z":
@@ -119,11 +153,21 @@ def gen_history(rng, length):
     for _ in range(length):
         x = rng.random()
         if x < 0.55:
-            op = ["S", int(rng.integers(len(REQS)))]
-            if rng.random() < 0.5:
-                # the same request shape at the other (or the same) storage precision: shared per-grid state must not
-                # carry anything precision-dependent from one solve to the next
-                op.append(str(rng.choice(["single", "double"])))
+            prev = [o for o in hist if o[0] == "S"]
+            if prev and rng.random() < 0.55:
+                # the previous request with exactly ONE argument changed (or the precision): a memo / workspace keyed on a
+                # subset of the arguments is hit by a request that differs only in the rest
+                op = ["S", prev[-1][1], prev[-1][2], int(rng.integers(N_VARIANTS))]
+                if rng.random() < 0.25:
+                    op[2] = str(rng.choice(["single", "double"]))
+            else:
+                op = ["S", int(rng.integers(len(REQS))), None, 0]
+                if rng.random() < 0.5:
+                    # the same request shape at the other (or the same) storage precision: shared per-grid state must not
+                    # carry anything precision-dependent from one solve to the next
+                    op[2] = str(rng.choice(["single", "double"]))
+                if rng.random() < 0.3:
+                    op[3] = int(rng.integers(N_VARIANTS))
             hist.append(op)
         elif x < 0.8:
             hist.append(["T", int(rng.integers(1, 9))])
@@ -139,23 +183,28 @@ def gen_history(rng, length):
     return hist
 
 
-def fresh_reference(cache={}):
-    """every request in a fresh process at one thread (double and single)"""
-    if "ref" not in cache:
-        ref = {}
-        jobs = [[["S", i]] for i in range(len(REQS))] + [[["S", i, "double"]] for i in range(len(REQS))] + [[["S", i, "single"]] for i in range(len(REQS))]
+def op_key(op):
+    """(request shape, precision, variant) of a solve op"""
+    return (op[1], (op[2] if len(op) > 2 and op[2] else REQS[op[1]]["prec"]), (op[3] if len(op) > 3 else 0))
+
+
+def fresh_reference(keys=(), cache={}):
+    """every requested (shape, precision, variant) in a fresh process at one thread; the base requests at both precisions always"""
+    ref = cache.setdefault("ref", {})
+    want = set(keys) | {(i, p, 0) for i in range(len(REQS)) for p in ("single", "double")}
+    todo = sorted(k for k in want if k not in ref)
+    if todo:
+        jobs = [[["S", k[0], k[1], k[2]]] for k in todo]
         with ThreadPoolExecutor(max_workers=8) as ex:
             outs = list(ex.map(run_real, jobs))
-        for j, o in zip(jobs, outs):
-            key = (j[0][1], j[0][2] if len(j[0]) > 2 else REQS[j[0][1]]["prec"])
-            ref[key] = o[0]
-        cache["ref"] = ref
-    return cache["ref"]
+        for k, o in zip(todo, outs):
+            ref[k] = o[0]
+    return ref
 
 
 def check_history(hist, real):
     """returns failure dict or None"""
-    ref = fresh_reference()
+    ref = fresh_reference([op_key(op) for op in hist if op[0] == "S"])
     first = {}
     threads = 1
     for op, rec in zip(hist, real):
@@ -165,14 +214,19 @@ def check_history(hist, real):
             threads = 1
         if op[0] != "S":
             continue
-        i = op[1]
-        prec = op[2] if len(op) > 2 else REQS[i]["prec"]
-        key = (i, threads, prec)
+        i, prec, variant = op_key(op)
+        key = (i, threads, prec, variant)
+        r0 = ref[(i, prec, variant)]
+        if ("error" in rec) != ("error" in r0):
+            return fail("C12/history-dependence/error", "a solve after a history %s while the same solve in a fresh process %s (request %d, variant %d)"
+                        % ("raises " + rec["error"] if "error" in rec else "returns", "raises" if "error" in r0 else "returns", i, variant),
+                        None, r0.get("error", "fields"), rec.get("error", "fields"), 0)
+        if "error" in rec:
+            continue
         if key in first and first[key] != rec["sha"]:
             return fail("C12/repeat-not-bit-identical", "repeating a solve with the same thread setting in one process is not bit-identical",
                         None, first[key][:16], rec["sha"][:16], 0)
         first.setdefault(key, rec["sha"])
-        r0 = ref[(i, prec)]
         for name in ("conc", "flx"):
             a, b = np.array(rec[name]), np.array(r0[name])
             sc = max(float(np.max(np.abs(b))), 1e-300)
@@ -180,7 +234,7 @@ def check_history(hist, real):
             e = float(np.max(np.abs(a - b))) / sc
             if not e <= tol:
                 return fail("C12/history-dependence/%s" % name, "a solve after a history differs from the same solve in a fresh single-threaded process "
-                            "(threads=%d, request %d)" % (threads, i), None, "<= %g" % tol, e, tol)
+                            "(threads=%d, request %d, variant %d)" % (threads, i, variant), None, "<= %g" % tol, e, tol)
     return None
 
 
@@ -197,7 +251,7 @@ def o_precision(case):
     ref = fresh_reference()
     for i in range(len(REQS)):
         for name in ("conc", "flx"):
-            a, b = np.array(ref[(i, "single")][name]), np.array(ref[(i, "double")][name])
+            a, b = np.array(ref[(i, "single", 0)][name]), np.array(ref[(i, "double", 0)][name])
             e = float(np.max(np.abs(a - b))) / max(float(np.max(np.abs(b))), 1e-300)
             if not e <= 1e-5:
                 return fail("C12/precision", "single precision differs from double by more than storage rounding (request %d, %s)" % (i, name),
@@ -209,6 +263,13 @@ def run(rng, tier, deep):
     st = new_stats()
     hists = [gen_history(rng, int(rng.integers(2, 11))) for _ in range(budget(tier, deep, 10, 60))]
     hists.append([["T", 4], ["S", 0], ["T", 1], ["S", 0], ["Z"], ["S", 0], ["T", 8], ["S", 1], ["S", 1], ["W"], ["S", 1]])
+    # one-argument-apart neighbours, both orders, for a numeric dispersion, a numeric footprint and an analytic request
+    for i in (0, 1) if tier == "quick" else (0, 1, 2, 4):
+        vs = [int(v) for v in rng.permutation(np.arange(1, N_VARIANTS))[: 4 if tier == "quick" else N_VARIANTS]]
+        h = [["S", i, None, 0]]
+        for v in vs:
+            h += [["S", i, None, v], ["S", i, None, 0]]
+        hists.append(h)
     for i in (0, 1, 5) if tier == "quick" else range(len(REQS)):
         hists.append([["S", i, "single"], ["S", i, "double"], ["S", i, "single"], ["S", i, "double"]])
         hists.append([["S", i, "double"], ["S", i, "single"], ["S", i, "double"]])
@@ -240,7 +301,7 @@ def run(rng, tier, deep):
     run_oracle(st, o_precision, dict())
     for w in (["corrupt"] if tier == "quick" else ["corrupt", None]):
         run_oracle(st, o_history, dict(hist=gen_history(rng, 4), wisdom=w))
-    return finish(st, "histories (length 4..12) over {solve of 6 request shapes (sizes, footprint/dispersion, analytic, single/double), set threads 1..8, "
+    return finish(st, "histories (length 4..12) over {solve of 6 request shapes (sizes, footprint/dispersion, analytic, single/double) and their one-argument variations (levels, level count, meas_pt, background, source, modes, halo, domain, profiles), set threads 1..8, "
                   "reset_fft_manager, module-level fft2, worker reset}, each in a fresh subprocess with its own cwd (FFTW wisdom absent or corrupt); "
                   "correspondence: (config.NUM_THREADS, manager threads, pyfftw threads, compiled variants) after every operation vs the Lean state machine; "
                   "oracle: repeats with the same thread setting bit-identical (SHA-256), every solve within 1e-12 (double) of the same solve in a fresh "
